@@ -41,12 +41,19 @@ SPACES = [" ", "\t", "\xa0", "\u2003", "\u3000", "\x1f"]
 KNOWN_WITNESSES = [
     # still present (known findings): re-observed so that KNOWN-FINDING is printed only while they are there
     ("{{ [1] }}", {}), ("{{ [a.b] }}", {"a": {"b": 1}}),
-    ("{{ x | date: '%Y' }}", {"x": "9" * 40}), ("{{ '-10152098955' | date: '%m/%d/%Y' }}", {}),
     # repaired (proposed_fixes/C02, C17, C19, C20): must stay repaired
     ("{{ 1e400 }}", {}), ("{% assign x = 1e400 %}{{ x }}", {}), ("{{ a | compact: 'title' }}", {"a": {}}),
     ("{{ s | truncate: x }}", {"s": "abc", "x": float("inf")}), ("{{ s | slice: x }}", {"s": "abc", "x": float("inf")}),
     ("{% translate count: a %}a{% plural %}b{% endtranslate %}", {"a": {}}),
     ("{{ a | map: () => i.x }}", {"a": [{"x": 1}]}),
+    ("{{ x | date: '%Y' }}", {"x": "9" * 40}), ("{{ '-10152098955' | date: '%m/%d/%Y' }}", {}),
+    ("{% for i in (1..2) %}{% for j in forloop %}{{ j }}{% endfor %}{% endfor %}", {}),
+    ("{% for i in (1..2) %}{{ forloop | join: ',' }}{{ forloop | first }}{{ forloop | map: 'x' }}{% if forloop == x %}{% endif %}{% endfor %}", {"x": {}}),
+    ("{{ 1 if c in d }}{% if d contains c %}y{% endif %}", {"c": [1], "d": {"a": 1}}), ("{% if d contains c %}y{% endif %}", {"c": {}, "d": {"a": 1}}),
+    ("{{ x }}", {"x": 10 ** 5000}), ("{{ x | append: '' }}{{ x | json }}", {"x": 10 ** 5000}), ("{{ 10 | times: x | times: x }}", {"x": 10 ** 3000}),
+    ("{{ (x..x) }}{% for i in x %}{% endfor %}", {"x": 10 ** 5000}), ("{% if 'a' contains x %}{% endif %}{{ \"${x}\" }}", {"x": 10 ** 5000}),
+    ("{{ x | uniq: 0 }}{{ x | compact: 0 }}", {"x": ["", "a"]}), ("{{ x | sum }}", {"x": [float("inf"), float("-inf")]}),
+    ("{{ x | sum }}", {"x": ["1e999", "-1e999"]}), ("{{ x | currency }}{{ x | decimal }}", {"x": 10 ** 400}), ("{{ 'nan' | unit: 'a' }}{{ 'inf' | datetime }}", {}),
     ("{{ 'inf' | ceil }}", {}), ("{{ 'nan' | ceil }}", {}), ("{{ 'inf' | floor }}", {}),
     ("{{ 'inf' | round }}", {}), ("{{ x | modulo: 0.0 }}", {"x": 5}), ("{{ 'inf' | minus: 'inf' }}", {}),
     ("{{ '50%' | t }}", {}), ("{{ '%(x)d' | t: x: 1 }}", {}),
